@@ -61,6 +61,8 @@ def run_shape(shape, fails, choices, max_concurrent=None, x=1, warm_rerun=False,
     finally:
         E.cleanup(d)
     stats = dict(S.STATE)
+    if stats.get("budget_hit") and not isinstance(err, S.BudgetExceeded):
+        err = S.BudgetExceeded(stats["budget_hit"])       # pydra replaced it on the way out
     return res, err, ev, stats
 
 
@@ -169,7 +171,7 @@ def c18(i, j, typed, use_async, choices, second=None):
     d = E.scratch()
     res = err = None
     try:
-        with E.deadline(40):
+        with E.deadline(15):
             task = D.LateAssign(x=1, typed=typed)
             if use_async:
                 res, err, ev = S.run_async(task, d, choices)
@@ -186,6 +188,8 @@ def c18(i, j, typed, use_async, choices, second=None):
         G.DiGraph._sorting = real
         R.FLAGS.pop("late", None)
         E.cleanup(d)
+    if S.STATE.get("budget_hit") and not isinstance(err, S.BudgetExceeded):
+        err = S.BudgetExceeded(S.STATE["budget_hit"])
     T.reach()
     desc = "late assignment %s.x = %s.out%s (%s fields, %s loop)" % ("abc"[i] if i >= 0 else "-", "abc"[j],
                                                                       " and %s.x = %s.out" % ("abc"[second[0]], "abc"[second[1]]) if second else "",
